@@ -24,7 +24,7 @@ TrNone == {}
 Cn(i) == IF i = 0 THEN NoCN ELSE T.cns[i]
 San(tr) == [i \in 1..Len(tr.san) |-> T.entries[tr.san[i]]]
 
-\* the suffix after "/" names the recorded input class (D13 / D14) when, and only when, the deviation action
+\* the suffix after "/" names the recorded input class (D13 / D15) when, and only when, the deviation action
 \* of MATCHER explains the verdict; it never changes the verdict itself
 AceTag(b) == IF b THEN "/uppercase-ace-prefix-wildcard" ELSE ""
 
